@@ -56,8 +56,25 @@ func runC01(cx *Ctx, r *Report) {
 	}
 	byFrame := map[*Frame][]evw{}
 	var order []*Frame
+	// (the deposit of an add-liquidity step is the transfer closest to its mint, whatever
+	// helpers perform the two)
+	perEntry := map[string][]*Event{}
+	for _, x := range all {
+		if x.e == "AddLiquidity" || x.e == "AddUnilateralLiquidity" {
+			perEntry[x.e] = append(perEntry[x.e], x.ev)
+		}
+	}
+	anchored := map[*Event]*Frame{}
+	for _, evs := range perEntry {
+		for ev, f := range anchorGroups(evs, "bank.MintCoins", []string{"bank.SendCoins"}) {
+			anchored[ev] = f
+		}
+	}
 	for _, x := range all {
 		hf := hostFrame(x.ev.Fr)
+		if f := anchored[x.ev]; f != nil {
+			hf = f
+		}
 		if _, ok := byFrame[hf]; !ok {
 			order = append(order, hf)
 		}
